@@ -172,3 +172,74 @@ Example C02_ck_release_on_fail_rejected :
   ck_run true [] 0 [mkCkev K_it_new 0 1 1; mkCkev K_wr_add 1 1 1; mkCkev K_wr_rel 3 1 1; mkCkev K_wr_add 1 1 1] = inr (2, 7)
   /\ ck_run true [] 0 [mkCkev K_it_new 0 1 1; mkCkev K_it_rel 3 1 1; mkCkev K_wr_add 1 1 1] = inr (2, 3).
 Proof. vm_compute. split; reflexivity. Qed.
+
+(* ------------------------------------------------------------------------------------------
+   The checksum type of a message is fixed by its first fragment.  (Gen/GenC02TypeCk.v,
+   Proofs/C02TypeCkP.v)                                                                       *)
+From Verif Require Import Base.Wire Gen.GenC02TypeCk Model.FragWire Proofs.C02TypeCkP.
+
+(* TIE.  The reader step of the model (r_recv, Model/Frag.v) IS the step whose decision between
+   the receipt of a fragment and the chunk loop is the definition c02ReaderTypeCk that go2v
+   regenerates on this run from fragmenting_reader.go recvAndParseNextFragment -- every statement
+   between `r.curFragment, r.err = r.receiver.recvNextFragment(initial)` and
+   `r.hasMoreFragments = ...`: the receiver-error return, `r.checksum = <type byte of this
+   fragment>.New()` when there is no checksum yet (the first fragment), and otherwise
+   `r.checksum.TypeCode() != r.curFragment.checksumType => errMismatchedChecksumTypes`.
+   (c02_r_recv: Proofs/C02TypeCkP.v.)  A further conjunct or disjunct in that comparison, another
+   operand, a checksum re-created mid-message, a dropped return, a statement inserted in between:
+   the definition changes or is not generated, and this obligation fails. *)
+Theorem C02_reader_typecheck_generated : forall st, r_recv st = c02_r_recv st.
+Proof. exact c02_r_recv_generated. Qed.
+
+(* The generated decision itself, ALL 256 values of the type byte, each base type b (none,
+   crc32, crc32c: the types whose checksum object reports its own type code): on a non-initial
+   fragment no checksum is created (-1) and the step returns errMismatchedChecksumTypes (7)
+   exactly when the type byte is not b.  (Finite sweep by computation on the generated term,
+   lifted with forallb_forall: independent of the shape of the Go expression.) *)
+Theorem C02_typecheck_all_bytes : forall b t, In b c02_base_types -> 0 <= t < 256 ->
+  c02ReaderTypeCk 0 true b t = (-1, if t =? b then 0 else 7).
+Proof. exact c02_typeck_later_all_bytes. Qed.
+
+(* ... and on the first fragment the checksum is created for that fragment's own type byte *)
+Theorem C02_typecheck_first_fragment : forall x t, 0 <= x < 256 -> 0 <= t < 256 ->
+  c02ReaderTypeCk 0 false x t = (t, 0).
+Proof. exact c02_typeck_first_all_bytes. Qed.
+
+(* the re-typed fragment: the generated decision says 7 and the model step fails with
+   errMismatchedChecksumTypes, sticky, whatever checksum bytes and chunks the fragment carries *)
+Theorem C02_retyped_fragment_fails : forall st c f rest t,
+  rs_err st = 0 -> rs_ck st = Some c -> c02_base (ck_typecode c) -> 0 <= t < 256 ->
+  f_ctype f = t -> t <> ck_typecode c ->
+  snd (c02ReaderTypeCk 0 true (ck_typecode c) t) = 7 /\
+  exists st2, r_recv (rs_with_in st (f :: rest)) = Some (7, st2) /\ rs_err st2 = 7.
+Proof. exact c02_retyped_fragment_fails. Qed.
+
+(* NEVER COMPLETE.  A message f0 :: pre ++ f :: post whose first fragment has a base type and in
+   which a later fragment f of the same message (f0 and all of pre announce more fragments)
+   carries ANY other type byte -- with any checksum bytes, any chunks, anything after it: for
+   EVERY script of reader operations (BeginArgument, Read of any size, Close, ArgReadHelper.Read,
+   in any order, also after errors) that does not panic, the reader does not reach
+   fragmentingReadComplete, doneReading is not called, and the reader has taken at most the
+   fragments up to and including f: the read has failed by the end of that fragment. *)
+Theorem C02_type_change_never_complete : forall f0 pre f post ops obs st,
+  c02_base (f_ctype f0) -> f_more f0 = true -> Forall (fun g => f_more g = true) pre ->
+  f_ctype f <> f_ctype f0 ->
+  r_run_lin ops (r_init (f0 :: pre ++ f :: post)) = Some (obs, st) ->
+  rs_state st <> c_fragmentingReadComplete /\ rs_fin st = false /\ rs_got st <= 2 + zlen pre.
+Proof. exact c02_type_change_never_complete. Qed.
+
+Print Assumptions C02_reader_typecheck_generated.
+Print Assumptions C02_typecheck_all_bytes.
+Print Assumptions C02_typecheck_first_fragment.
+Print Assumptions C02_retyped_fragment_fails.
+Print Assumptions C02_type_change_never_complete.
+
+(* non-vacuity: a three-fragment crc32 message read with ArgReadHelper completes; the same
+   message with the type byte of its last fragment replaced by 2 (Farmhash; same four checksum
+   bytes, which still equal the running CRC) fails with code 7 when that fragment arrives *)
+Example C02_type_change_sample :
+  (exists obs st, r_run_lin c02_ex_ops (r_init (c02_ex_msg 1)) = Some (obs, st) /\
+     rs_state st = c_fragmentingReadComplete /\ rs_fin st = true /\ rs_err st = 0) /\
+  (exists obs st, r_run_lin c02_ex_ops (r_init (c02_ex_msg 2)) = Some (obs, st) /\
+     rs_state st <> c_fragmentingReadComplete /\ rs_fin st = false /\ rs_err st = 7 /\ rs_got st = 3).
+Proof. exact (conj c02_ex_conforming_completes c02_ex_retyped_fails). Qed.
